@@ -81,10 +81,12 @@ package storage
 
 // last_tso_err: the error of the last timestamp request (scratch: valid until the next call)
 //@ ghost last_tso_err Iface scratch
+// snap_taken: this request has fixed the snapshot timestamp it reads at (C08)
+//@ ghost snap_taken Bool
 //@ func KvStorage.GetTimestampOracle(ctx) (timestamp, err)
 //@   assumed
-//@   modifies ghost.last_tso_err
-//@   ensures [recorded] last_tso_err == err
+//@   modifies ghost.last_tso_err ghost.snap_taken
+//@   ensures [recorded] last_tso_err == err && snap_taken
 
 //@ func ExclusiveKvStorage.GetExclusiveKvStorage() (result)
 //@   assumed
